@@ -24,12 +24,21 @@ def run(tier, seed, t0):
     # many cells refined at once (refine_meshes, 16 threads) against the same cells refined one after another
     npar = T(tier, 12, 600)
     R.run_inv(Inv("remesh_par", npar, "plain", threads=16, shards=1, first=5000000, timeout=T(tier, 1500, 6 * 3600), tag="remesh_par/plain/t16"), seed, wd, m)
+    # edges exactly at a bound of the length band (integer-lattice meshes, bounds equal to edge lengths, exact arithmetic in the monitor)
+    nlat = T(tier, 4000, 400000)
+    ml = Merged(); R.run_inv(Inv("remesh_lattice", nlat, "plain", first=6000000, timeout=T(tier, 1500, 6 * 3600)), seed, wd, ml)
+    n_hist_nt = m.nontrivial
+    m.violations += ml.violations; m.inconclusive += ml.inconclusive; m.harness_failures += ml.harness_failures; m.evaluations += ml.evaluations; m.nontrivial += ml.nontrivial; m.sigs |= ml.sigs; m.distinct_unlisted += ml.distinct_unlisted
+    m.add_bins(ml.bins)
     # time-outs inside refinement are this property's violations; other crashes stay inconclusive
     for v in m.violations:
         if v.get("timeout"):
             v["crash"] = False; v["key"] = "c11.pass_does_not_return"
     floors = {
-        "nontrivial_histories": (m.nontrivial, 0.4 * n),
+        "nontrivial_histories": (n_hist_nt, 0.4 * n),
+        "lattice_meshes_with_edges_exactly_at_a_bound": (ml.nontrivial, 0.4 * nlat),
+        "lattice_edges_exactly_at_lmax": (m.bins.get("lattice_edges_exactly_at_lmax", 0), 2 * nlat), "lattice_edges_exactly_at_lmin": (m.bins.get("lattice_edges_exactly_at_lmin", 0), 2 * nlat),
+        "lattice_splits_judged_exactly": (m.bins.get("lattice_splits_judged_exactly", 0), 20 * nlat), "lattice_merges_judged_exactly": (m.bins.get("lattice_merges_judged_exactly", 0), 5 * nlat),
         "cells_refined_concurrently": (m.bins.get("parallel_refinement_cells", 0), 40 * npar),
         "splits": (m.bins.get("splits", 0), 1000), "merges": (m.bins.get("merges", 0), 1000), "swaps_done": (m.bins.get("swaps_done", 0), 20),
         "conforming_meshes_checked": (m.bins.get("conforming_checked", 0), 3), "repeated_pass_on_conforming_mesh": (m.bins.get("repeated_pass_on_conforming_mesh", 0), 40), "passes": (m.bins.get("passes", 0), 500),
